@@ -471,7 +471,7 @@ handle_arglist(spif_int32_t n, spif_charptr_t val_ptr, unsigned char hasequal,
                spif_int32_t i, int argc, char *argv[])
 {
     spif_charptr_t *tmp;
-    register unsigned short k;
+    register unsigned long k;
 
     D_OPTIONS(("Argument list option detected\n"));
     if (hasequal) {
@@ -483,12 +483,12 @@ handle_arglist(spif_int32_t n, spif_charptr_t val_ptr, unsigned char hasequal,
         /* Take exactly the words that were counted (and allocated for). */
         for (k = 0; k < cnt; k++) {
             tmp[k] = spiftool_get_word(k + 1, val_ptr);
-            D_OPTIONS(("tmp[%d] == %s\n", k, tmp[k]));
+            D_OPTIONS(("tmp[%lu] == %s\n", k, tmp[k]));
         }
         tmp[k] = (spif_charptr_t) NULL;
         *((spif_charptr_t **) SPIFOPT_OPT_VALUE(n)) = tmp;
     } else {
-        unsigned short len = argc - i;
+        unsigned long len = argc - i;
 
         /* No equals sign, so use the rest of the command line and break. */
         tmp = (spif_charptr_t *) MALLOC(sizeof(spif_charptr_t ) * (argc - i + 1));
@@ -496,7 +496,7 @@ handle_arglist(spif_int32_t n, spif_charptr_t val_ptr, unsigned char hasequal,
         for (k = 0; k < len; k++) {
             /* The first word may be attached to the option letter ("-eWORD");  val_ptr points at it either way. */
             tmp[k] = (spif_charptr_t) STRDUP((k == 0) ? ((char *) val_ptr) : (argv[k + i]));
-            D_OPTIONS(("tmp[%d] == %s\n", k, tmp[k]));
+            D_OPTIONS(("tmp[%lu] == %s\n", k, tmp[k]));
             if (!SPIFOPT_FLAGS_IS_SET(SPIFOPT_SETTING_PREPARSE) && SPIFOPT_FLAGS_IS_SET(SPIFOPT_SETTING_REMOVE_ARGS)) {
                 argv[k + i] = NULL;
             }
